@@ -539,6 +539,70 @@ def run_setlink(case, r):
         env.rm(path)
 
 
+def run_manydims(case, r):
+    """an array of rank 11 whose range descriptors are linked to different arrays: every access path to descriptor k
+    (creation handle, position, negative position, iteration, after reopening) reaches the array linked to k; and a
+    link to an int64 array whose values exceed 2**53 reports exactly those values"""
+    env.install_seams()
+    env.reset_execution()
+    path = env.fresh_path("c05f_")
+    f = nix.File.open(path, nix.FileMode.Overwrite)
+    try:
+        b = f.create_block("b", "t")
+        da = b.create_data_array("d", "t", data=np.zeros((1,) * 11))
+        created = []
+        for k in range(11):
+            src = b.create_data_array("ticks%02d" % k, "t", data=np.array([float(100 * k + 1)]), unit="ms", label="axis%d" % k)
+            dim = da.append_range_dimension()
+            dim.link_data_array(src, [-1])
+            created.append(dim)
+        for stage in ("in-session", "after-reopen"):
+            dims = da.dimensions
+            views = {"position": [dims[k] for k in range(11)], "negative-position": [dims[k - 11] for k in range(11)],
+                     "iteration": list(dims)}
+            if stage == "in-session":
+                views["creation-handle"] = created
+            for vname, lst in views.items():
+                r.evals += 1
+                r.nontrivial += 1
+                got = [(d.index, [float(x) for x in d.ticks], d.label) for d in lst]
+                exp = [(k + 1, [float(100 * k + 1)], "axis%d" % k) for k in range(11)]
+                if got != exp:
+                    bad = [k for k in range(11) if k >= len(got) or got[k] != exp[k]]
+                    r.viol("C05|manydims|%s|%s|descriptor-reaches-another-array" % (stage, vname),
+                           "rank-11 array: descriptor(s) %s reached by %s report %r, expected %r" % (
+                               [k + 1 for k in bad][:4], vname, [got[k] for k in bad if k < len(got)][:2], [exp[k] for k in bad][:2]), {})
+                    return
+            # write-through from the 10th descriptor lands in the 10th array
+            dims[9].label = "changed-through-10"
+            if b.data_arrays["ticks09"].label != "changed-through-10" or b.data_arrays["ticks01"].label != "axis1":
+                r.viol("C05|manydims|%s|write-through-lands-elsewhere" % stage, "label set through descriptor 10 did not reach array ticks09", {})
+                return
+            b.data_arrays["ticks09"].label = "axis9"
+            f.close()
+            f = nix.File.open(path, nix.FileMode.ReadWrite)
+            b = f.blocks["b"]
+            da = b.data_arrays["d"]
+        # integer ticks beyond 2**53: the ticks are the array's values, exactly
+        r.evals += 1
+        r.nontrivial += 1
+        big = [2 ** 53 + 1, 2 ** 53 + 3, 2 ** 62 + 5]
+        for dt in ("int64", "uint64"):
+            src = b.create_data_array("bigticks-" + dt, "t", data=np.array(big, dtype=dt))
+            d3 = b.create_data_array("d3-" + dt, "t", data=np.zeros(3))
+            dim = d3.append_range_dimension()
+            dim.link_data_array(src, [-1])
+            got = [int(x) for x in d3.dimensions[0].ticks]
+            if got != big:
+                r.viol("C05|dimlink|%s-beyond-2^53|ticks-differ-from-the-array" % dt,
+                       "ticks of a dimension linked to an %s array: %r, the array holds %r" % (dt, got, big), {})
+                return
+        r.outcomes.add("manydims")
+    finally:
+        env.safe_close(f)
+        env.rm(path)
+
+
 def run_relink(case, r):
     """re-pointing a link from one KIND of target to another and from one target to another of the same kind:
     dimension links frame -> other frame / frame -> array / array -> frame, feature data frame -> array / array -> frame;
@@ -644,10 +708,11 @@ def cases(tier):
         out.append({"k": "dimlink", "shape": shp})
     out.append({"k": "setlink"})
     out.append({"k": "relink"})
+    out.append({"k": "manydims"})
     return out
 
 
 def run_case(case):
     r = R()
-    {"paths": run_paths, "accept": run_accept, "dimlink": run_dimlink, "setlink": run_setlink, "relink": run_relink}[case["k"]](case, r)
+    {"paths": run_paths, "accept": run_accept, "dimlink": run_dimlink, "setlink": run_setlink, "relink": run_relink, "manydims": run_manydims}[case["k"]](case, r)
     return r
